@@ -733,10 +733,20 @@ def sec_enc(ctx):
         changed.append("Enc")
 
 
+@section("Pair")
+def sec_pair(ctx):
+    changed = ctx["changed"]
+    sys.path.insert(0, os.path.dirname(os.path.abspath(__file__)))
+    import extract_pair
+    manifest.extend(extract_pair.emit(REPO, GEN, ExtractError))
+    if getattr(extract_pair, "CHANGED", False):
+        changed.append("Pair")
+
+
 def main():
     os.makedirs(GEN, exist_ok=True)
     ctx = {"changed": []}
-    for sec in (sec_fields, sec_montprog, sec_derive, sec_fqconsts, sec_curve, sec_maps, sec_chains, sec_arith, sec_enc):
+    for sec in (sec_fields, sec_montprog, sec_derive, sec_fqconsts, sec_curve, sec_maps, sec_chains, sec_arith, sec_enc, sec_pair):
         sec(ctx)
     changed = ctx["changed"]
     with open(os.path.join(VERIF, "gen_manifest.json"), "w") as f:
